@@ -447,10 +447,11 @@ Notation drawfix := (@drawfix R blank).
 
 (* where the replaced lines r1 .. e-1 (n new lines) may lie for the partial redraw to be exact:
    the change starts inside the window (a pure insertion not on its first row), or starts above
-   it and removes lines, or lies wholly below it (and is not a no-op) *)
+   it and either removes lines or reaches into the window (since fix 7ace771; before, only when it
+   removed lines), or lies wholly below it (and is not a no-op) *)
 Definition fix_pre (W h r1 e n : nat) : Prop :=
   (W <= r1 < W + h /\ (r1 < e \/ W < r1))
-  \/ (r1 < W /\ n < e - r1)
+  \/ (r1 < W /\ (n < e - r1 \/ W < e))
   \/ (W + h <= r1 /\ (1 <= n \/ r1 < e)).
 
 Lemma drawfix_length f W h r1 r2 n rows : length rows = h -> length (drawfix f W h r1 r2 n rows) = h.
@@ -472,41 +473,47 @@ Proof.
   apply (win_pointwise R new W h _ blank); [apply drawfix_length, win_length|].
   intros k Hk. unfold DrawDefs.drawfix. cbv zeta.
   set (r1c := Nat.min (Nat.max r1 W) (W + h - 1)).
+  set (n' := if r1 <? W then n - (W - r1) else n).
+  replace (if (Z.of_nat r1 <? Z.of_nat W)%Z then Z.max 0 (Z.of_nat n - (Z.of_nat W - Z.of_nat r1)) else Z.of_nat n)
+    with (Z.of_nat n') by (unfold n'; destruct (Z.ltb_spec (Z.of_nat r1) (Z.of_nat W)); destruct (Nat.ltb_spec r1 W); lia).
+  assert (Hn'def : (r1 < W /\ n' = n - (W - r1)) \/ (W <= r1 /\ n' = n)) by (unfold n'; destruct (Nat.ltb_spec r1 W); lia).
+  clearbody n'.
   replace (clampZ (Z.of_nat r1) (Z.of_nat W) (Z.of_nat W + Z.of_nat h - 1)) with (Z.of_nat r1c)
     by (unfold clampZ, r1c; lia).
-  set (room := (Z.of_nat r1c - clampZ (Z.of_nat e - 1) (Z.of_nat W) (Z.of_nat W + Z.of_nat h - 1) - 1 + Z.of_nat n)%Z).
+  set (room := (Z.of_nat r1c - clampZ (Z.of_nat e - 1) (Z.of_nat W) (Z.of_nat W + Z.of_nat h - 1) - 1 + Z.of_nat n')%Z).
   set (dneg := n <? e - r1).
   replace ((Z.of_nat n - (Z.of_nat e - 1 - Z.of_nat r1 + 1) <? 0)%Z) with dneg by (unfold dneg; lia).
-  replace ((Z.of_nat r1c + Z.of_nat n <? Z.of_nat W + Z.of_nat h)%Z) with (r1c + n <? W + h) by lia.
+  replace ((Z.of_nat r1c + Z.of_nat n' <? Z.of_nat W + Z.of_nat h)%Z) with (r1c + n' <? W + h) by lia.
   replace (Z.to_nat (Z.of_nat r1c - Z.of_nat W)) with (r1c - W) by lia.
-  replace (Z.to_nat (Z.of_nat r1c + Z.of_nat n)) with (r1c + n) by lia.
-  replace (Z.to_nat (Z.of_nat W + Z.of_nat h - (Z.of_nat r1c + Z.of_nat n))) with (W + h - (r1c + n)) by lia.
+  replace (Z.to_nat (Z.of_nat r1c + Z.of_nat n')) with (r1c + n') by lia.
+  replace (Z.to_nat (Z.of_nat W + Z.of_nat h - (Z.of_nat r1c + Z.of_nat n'))) with (W + h - (r1c + n')) by lia.
   replace (Z.to_nat (Z.of_nat r1c)) with r1c by lia.
-  replace (Z.to_nat (Z.min (Z.of_nat n) (Z.of_nat W + Z.of_nat h - Z.of_nat r1c))) with (Nat.min n (W + h - r1c)) by lia.
+  replace (Z.to_nat (Z.min (Z.of_nat n') (Z.of_nat W + Z.of_nat h - Z.of_nat r1c))) with (Nat.min n' (W + h - r1c)) by lia.
   assert (Hr1c : W <= r1c < W + h) by (unfold r1c; lia).
   rewrite fix_loops_nth; [|apply term_room_length, win_length|exact Hr1c|exact Hk].
-  destruct ((r1c - W <=? k) && ((k <? r1c - W + n) || dneg)) eqn:C; [reflexivity|].
+  destruct ((r1c - W <=? k) && ((k <? r1c - W + n') || dneg)) eqn:C; [reflexivity|].
   destruct (lt_dec k (r1c - W)) as [Hlt|Hge].
   - (* above the first touched row *)
     rewrite term_room_nth_above by (try apply win_length; exact Hlt).
     rewrite win_nth by exact Hk. symmetry. apply S1. unfold r1c in Hlt. lia.
-  - (* below the n redrawn rows, no lines removed: the rows were moved by insert-line *)
-    assert (Hk2 : r1c - W + n <= k /\ dneg = false).
+  - (* below the redrawn rows, no lines removed: the rows were moved by insert-line *)
+    assert (Hk2 : r1c - W + n' <= k /\ dneg = false).
     { replace (r1c - W <=? k) with true in C by lia. cbn [andb] in C.
       apply orb_false_iff in C. destruct C as [C1 C2]. apply Nat.ltb_ge in C1. split; assumption. }
     destruct Hk2 as [Hk2 Hd]. unfold dneg in Hd. apply Nat.ltb_ge in Hd.
-    assert (Hin : W <= r1 < W + h /\ (r1 < e \/ W < r1)).
-    { destruct Pre as [P|[P|P]]; [exact P| |]; unfold r1c in *; lia. }
-    assert (Er : r1c = r1) by (unfold r1c; lia). rewrite Er in *.
+    assert (Hin : (W <= r1 < W + h /\ (r1 < e \/ W < r1)) \/ (r1 < W /\ W < e)).
+    { destruct Pre as [P|[P|P]]; [left; exact P|right; lia|]; unfold r1c in *; lia. }
     set (m := n - (e - r1)).
+    assert (Hn' : r1c + n' = r1 + n \/ (r1 + n < W /\ n' = 0)) by (unfold r1c; lia).
+    assert (Hrn : r1c + n' = r1 + n) by (destruct Hn' as [H|H]; [exact H|unfold r1c in *; lia]).
     assert (Hroom : room = Z.of_nat m).
-    { unfold room, m. rewrite Er. unfold clampZ. lia. }
+    { unfold room, m, clampZ. lia. }
     rewrite Hroom.
     replace (W + k) with (r1 + n + (W + k - r1 - n)) by lia. rewrite S2.
     destruct (Nat.eq_dec m 0) as [Hm|Hm].
     + rewrite Hm. unfold DrawDefs.term_room. cbn. rewrite win_nth by exact Hk. f_equal. unfold m in Hm. lia.
     + rewrite term_room_ins_nth by (try apply win_length; unfold m in *; lia).
-      replace (k <? r1 - W) with false by lia. replace (k <? r1 - W + m) with false by (unfold m; lia).
+      replace (k <? r1c - W) with false by lia. replace (k <? r1c - W + m) with false by (unfold m; lia).
       rewrite win_nth by lia. f_equal. unfold m. lia.
 Qed.
 
@@ -566,7 +573,16 @@ Lemma site_above_shrinks buf ins W h r1 e :
   = win (fimg (splice buf r1 e ins)) W h.
 Proof.
   intros Hh Hr Hn He. apply (drawfix_splice_is_repaint R blank line img buf ins W h r1 e); try lia.
-  right. left. split; assumption.
+  right. left. split; [assumption|left; assumption].
+Qed.
+(* the change starts above the window and reaches into it (since fix 7ace771 any line count) *)
+Lemma site_above_reaches buf ins W h r1 e :
+  1 <= h -> r1 < W -> W < e -> e <= length buf ->
+  drawfix (fimg (splice buf r1 e ins)) W h (Z.of_nat r1) (Z.of_nat e - 1) (Z.of_nat (length ins)) (win (fimg buf) W h)
+  = win (fimg (splice buf r1 e ins)) W h.
+Proof.
+  intros Hh Hr Hn He. apply (drawfix_splice_is_repaint R blank line img buf ins W h r1 e); try lia.
+  right. left. split; [assumption|right; assumption].
 Qed.
 
 (* vi_delete, line mode: lbuf_edit(NULL, r1, r2+1); vi_drawfix(r1, r2, 0, 0).  r1 <= xrow <= r2 (the region of an operator
@@ -590,16 +606,17 @@ Proof.
   change 1%Z with (Z.of_nat (length [l])).
   destruct (le_lt_dec W r1); [apply site_in_window|apply site_above_shrinks]; cbn [length]; lia.
 Qed.
-(* vi_case (g~ gu gU) and vi_shift (> <): r2-r1+1 lines replaced by as many; vi_drawfix(r1, r2, r2-r1+1, 0).  Holds when the
-   region starts inside the window; see case_above_refuted for a region that starts above it *)
+(* vi_case (g~ gu gU) and vi_shift (> <): r2-r1+1 lines replaced by as many; vi_drawfix(r1, r2, r2-r1+1, 0).  The region may
+   start above the window (g~k, >k, <1G on the first row of a scrolled window) since fix 7ace771; before it such a call
+   inserted xtop - r1 lines at row 0 (finding KF-DRAWFIX-ABOVE) *)
 Theorem site_same_count buf ins W h xrow r1 r2 :
-  W <= xrow < W + h -> W <= r1 <= xrow -> xrow <= r2 -> r2 < length buf -> length ins = S r2 - r1 ->
+  W <= xrow < W + h -> r1 <= xrow <= r2 -> r2 < length buf -> length ins = S r2 - r1 ->
   drawfix (fimg (splice buf r1 (S r2) ins)) W h (Z.of_nat r1) (Z.of_nat r2) (Z.of_nat r2 - Z.of_nat r1 + 1)%Z (win (fimg buf) W h)
   = win (fimg (splice buf r1 (S r2) ins)) W h.
 Proof.
-  intros Hw Hr1 Hr2 Hl Hi. replace (Z.of_nat r2) with (Z.of_nat (S r2) - 1)%Z at 1 by lia.
+  intros Hw Hr Hl Hi. replace (Z.of_nat r2) with (Z.of_nat (S r2) - 1)%Z at 1 by lia.
   replace (Z.of_nat r2 - Z.of_nat r1 + 1)%Z with (Z.of_nat (length ins)) by lia.
-  apply site_in_window; lia.
+  destruct (le_lt_dec W r1); [apply site_in_window|apply site_above_reaches]; lia.
 Qed.
 (* vc_put, character-wise register: line xrow becomes the m >= 1 lines of pref ++ register ++ post; vi_drawfix(xrow, xrow, m, 0)
    (lncnt = linecount - 1).  vc_replace with a character is the case m = 1, with a newline m = cnt + 1 (vi_drawfix(xrow - cnt,
@@ -647,20 +664,6 @@ Proof.
     + left. split; [lia|left; lia].
 Qed.
 End Sites.
-
-(* vi_case / vi_shift with a region that starts ABOVE the window (g~k, >k, <1G ... on the first row of a scrolled window): the
-   arguments vi_drawfix(r1, r2, r2-r1+1, 0) lie outside fix_pre and a correct screen is damaged -- 8 lines, window of 3 rows at
-   top 4, lines 3..4 replaced by two other lines: the faithful model shows line 5 twice and loses line 6 *)
-Theorem case_above_refuted : exists (buf ins : list nat) W h r1 r2,
-  W <= r2 < W + h /\ r1 < W /\ r2 < length buf /\ length ins = S r2 - r1 /\
-  drawfix nat 0 (fimg nat nat (fun o => match o with Some x => x | None => 0 end) (splice nat buf r1 (S r2) ins)) W h
-          (Z.of_nat r1) (Z.of_nat r2) (Z.of_nat r2 - Z.of_nat r1 + 1)%Z
-          (win nat (fimg nat nat (fun o => match o with Some x => x | None => 0 end) buf) W h)
-  <> win nat (fimg nat nat (fun o => match o with Some x => x | None => 0 end) (splice nat buf r1 (S r2) ins)) W h.
-Proof.
-  exists [10; 11; 12; 13; 14; 15; 16; 17], [93; 94], 4, 3, 3, 4.
-  repeat split; try (cbn; lia). vm_compute. discriminate.
-Qed.
 
 (* ---------- insert mode: vi_nextline and the preview of vi_change ---------- *)
 Section InsertMode.
